@@ -507,13 +507,15 @@ def idxAdd (k : Key) : Option (List Key) → Option (List Key)
 
 /-- `fileWriterHandler`: write every treasure waiting for the writer (a key that is no longer in
     the key beacon is written as a delete) -/
+def flushStep (e : Encoding) (recs : List (Key × MRec)) (f : List (Key × PRec)) (k : Key) : List (Key × PRec) :=
+  match AL.find k recs with
+  | some t => AL.insert k (persistRec e t) f
+  | none => AL.erase k f
+
 def flushDisk (e : Encoding) (recs : List (Key × MRec)) (waiting : List Key)
     (disk : Option (List (Key × PRec))) : Option (List (Key × PRec)) :=
   if waiting.isEmpty then disk
-  else some (waiting.foldl (fun f k =>
-    match AL.find k recs with
-    | some t => AL.insert k (persistRec e t) f
-    | none => AL.erase k f) (disk.getD []))
+  else some (waiting.foldl (flushStep e recs) (disk.getD []))
 
 def addWaiting (w : List Key) (k : Key) : List Key := if w.contains k then w else w ++ [k]
 
